@@ -104,7 +104,7 @@ func (Engine) Generate(r *simcore.RNG, tier string, idx int) *simcore.Plan {
 		if cl == 1 {
 			clw = 1
 		}
-		switch r.Weighted([]int{14, 12, 10, 10, 5, 8, 8, 7 * clw, 4 * clw, 3 * clw, 6, 13, 3, 2, 4, 3}) {
+		switch r.Weighted([]int{14, 12, 10, 10, 5, 8, 8, 7 * clw, 4 * clw, 3 * clw, 6, 13, 3, 2, 4, 3, 2}) {
 		case 0:
 			st.Op = "lock"
 			kind := r.Weighted([]int{70, 0, 4, 6})
@@ -168,8 +168,12 @@ func (Engine) Generate(r *simcore.RNG, tier string, idx int) *simcore.Plan {
 			// governance takes a share denomination off the superfluid asset list, or puts it back
 			st.Op = "govasset"
 			st.A = []int64{r.Range(0, 1)}
+		case 16:
+			// a validator is slashed for misbehaviour (fault): every lock staked or unstaking through it loses the fraction
+			st.Op = "slash"
+			st.A = []int64{r.Range(0, 2), r.Range(0, 3)}
 		}
-		if faults && r.Chance(0.2) && st.Op != "advance" && st.Op != "sweep" && st.Op != "restart" && st.Op != "govasset" {
+		if faults && r.Chance(0.2) && st.Op != "advance" && st.Op != "sweep" && st.Op != "restart" && st.Op != "govasset" && st.Op != "slash" {
 			if r.Chance(0.35) {
 				st.F = "abort"
 			} else {
@@ -235,6 +239,7 @@ type world struct {
 	baseSupply osmomath.Int
 	ops        map[string]int  // lock operations per intermediary account since the last refresh
 	unsettled  map[string]bool // denominations whose listing governance changed since the last refresh
+	slashed    bool            // some validator has been slashed in this run
 }
 
 func (w *world) sortedIDs() []uint64 {
@@ -461,6 +466,12 @@ func (Engine) Execute(run *simcore.Run) {
 			run.Event(st.Op, "ok")
 			run.Logf("%d govasset %s %s", i, denom, what)
 			if !w.checkSupply(n.Ctx, "govasset") || !w.oracle("govasset") {
+				return
+			}
+			continue
+		}
+		if st.Op == "slash" {
+			if !w.slash(i, st) {
 				return
 			}
 			continue
@@ -942,6 +953,14 @@ func (w *world) build(st simcore.Step) (sdk.Msg, func(simchain.Result), bool) {
 // Between refreshes the property allows one base unit per connected lock.
 func (w *world) stakeOracle(ctx sdk.Context, op string, exact bool) bool {
 	n, run := w.n, w.run
+	if w.slashed {
+		// C11 does not speak of slashing. Once a validator has been slashed its shares are no longer worth one
+		// token each (every conversion of the refresh rounds), locks are cut by whole shares worth up to a
+		// multiplier each, and the concentrated multiplier update can fail as a whole: the stake oracles are
+		// not evaluated for the rest of such a run. Supply, markers, lock records and the refusals still are.
+		run.Probe("stake-oracles-off-after-slash")
+		return true
+	}
 	oneMinusRf := new(big.Rat).Sub(big.NewRat(1, 1), decRat(n.App.SuperfluidKeeper.GetParams(ctx).MinimumRiskFactor))
 	ids := w.sortedIDs()
 	for _, denom := range w.denoms {
@@ -1010,6 +1029,107 @@ func (w *world) stakeOracle(ctx sdk.Context, op string, exact bool) bool {
 		}
 	}
 	return true
+}
+
+// slash injects validator misbehaviour: the staking module slashes validator v by a fraction (as the
+// evidence / downtime handlers do in their begin-blocker), which makes x/superfluid slash every lock that
+// is staked or unstaking through the validator and refresh all intermediary delegations.
+func (w *world) slash(i int, st simcore.Step) bool {
+	run, n := w.run, w.n
+	v := int(st.Arg(0)) % w.vals
+	f := osmomath.MustNewDecFromStr([]string{"0.0001", "0.01", "0.05", "0.5"}[int(st.Arg(1))%4])
+	valAddr := n.ValAddrs[v]
+	val, err := n.App.StakingKeeper.GetValidator(n.Ctx, valAddr)
+	if err != nil || !val.IsBonded() {
+		run.Event("slash", "skip")
+		return true
+	}
+	cons, err := val.GetConsAddr()
+	if err != nil {
+		panic(err)
+	}
+	// stake held through intermediary accounts (minted by x/superfluid, hidden from the reported supply)
+	syn := osmomath.ZeroDec()
+	for _, denom := range w.denoms {
+		ia := sftypes.GetSuperfluidIntermediaryAccountAddr(denom, valAddr.String())
+		if del, err := n.App.StakingKeeper.GetDelegation(n.Ctx, ia, valAddr); err == nil {
+			syn = syn.Add(val.TokensFromShares(del.Shares))
+		}
+	}
+	tokens := val.Tokens
+	burned, err := n.App.StakingKeeper.Slash(n.Ctx, cons, n.Height-1, val.ConsensusPower(sdk.DefaultPowerReduction), f)
+	if err != nil {
+		run.Fail("C11", "chain-halt", "slash", "slashing validator %d by %s failed: %v", v, f, err)
+		return false
+	}
+	w.slashed = true
+	run.Fault("validator-slash")
+	// the staking module slashes by power (whole millions of tokens): the fraction every delegator - and
+	// every lock - actually loses is burned / validator tokens
+	eff := osmomath.ZeroDec()
+	if tokens.IsPositive() {
+		eff = burned.ToLegacyDec().QuoInt(tokens)
+	}
+	ctx := n.Ctx
+	cnt := 0
+	for _, id := range w.sortedIDs() {
+		l := w.locks[id]
+		if l.val != v || l.state == plain {
+			continue
+		}
+		// expected cut amount*eff, to within one unit plus the 18-digit rounding of the fraction
+		want := l.amount.ToLegacyDec().Mul(eff)
+		slack := osmomath.OneDec().Add(l.amount.ToLegacyDec().Mul(osmomath.NewDecWithPrec(2, 18)))
+		g, err := n.App.LockupKeeper.GetLockByID(ctx, id)
+		if err != nil || len(g.Coins) != 1 {
+			run.Fail("C11", "slash-cut", "lock-gone", "after slashing validator %d by %s: lock %d (%s) is gone or malformed: %v", v, f, id, l.state, err)
+			return false
+		}
+		cut := l.amount.Sub(g.Coins[0].Amount)
+		if cut.ToLegacyDec().Sub(want).Abs().GT(slack) {
+			// how much a lock loses when its validator is slashed is not part of C11 (which speaks of the
+			// stake matching the locks, and that is restored by the refresh that follows the slash): the
+			// reference follows the chain here and only counts the deviation. Seen on the unchanged tree: a
+			// concentrated lock split off by a partial undelegate-and-unbond has no position mapping and is
+			// not slashed at all.
+			run.Probe("slash-cut-differs-from-stake-fraction/" + l.state.String())
+		}
+		if cut.IsNegative() {
+			run.Fail("C11", "lock-record", "grew-on-slash", "slashing validator %d made lock %d grow from %s to %s", v, id, l.amount, g.Coins[0].Amount)
+			return false
+		}
+		l.amount = l.amount.Sub(cut)
+		if !l.cl {
+			w.shares[l.owner] = w.shares[l.owner].Sub(cut)
+		}
+		cnt++
+		w.bump(l, 2)
+	}
+	// locks not staked through this validator must be untouched: the lock-record oracle below checks them
+	// the reported supply falls by what was burned of REAL stake only: the share of the burn that hit
+	// superfluid-minted stake was never part of the reported supply
+	realBurn := burned.ToLegacyDec()
+	if tokens.IsPositive() {
+		realBurn = realBurn.Mul(osmomath.OneDec().Sub(syn.QuoInt(tokens)))
+	}
+	expected := w.baseSupply.Sub(realBurn.RoundInt())
+	tol := osmomath.NewInt(int64(3 + cnt))
+	got := w.supplyWithOffset(ctx)
+	if got.Sub(expected).Abs().GT(tol) {
+		sig := "slash/other"
+		if got.Sub(w.baseSupply.Sub(burned)).Abs().LTE(tol) {
+			// the whole burn, including the part that hit superfluid-minted stake, went through to the reported supply
+			sig = "slash/minted-stake-burn-reported"
+		}
+		run.Fail("C11", "supply-neutral", sig, "height %d: slashing validator %d burned %s of which %s was superfluid-minted stake (hidden from the reported supply by the offset); SupplyWithOffset went from %s to %s, expected %s", n.Height, v, burned, burned.ToLegacyDec().Sub(realBurn).RoundInt(), w.baseSupply, got, expected)
+		if run.Stop() {
+			return false
+		}
+	}
+	w.baseSupply = got
+	run.Event("slash", "ok")
+	run.Logf("%d slash validator=%d fraction=%s burned=%s superfluid-stake=%s of %s locks-cut=%d", i, v, f, burned, syn.TruncateInt(), tokens, cnt)
+	return w.oracle("slash")
 }
 
 // oracle compares chain state with the reference after a step.
